@@ -20,7 +20,13 @@ def func_props():
         b = re.match(r"//@\s+prop (.*)", l)
         if b and cur:
             m[cur] = b.group(1).split()
-            cur = None
+            continue
+        if cur and l.startswith("//@"):
+            # clause tags count too (a clause may carry a property the prop line does not repeat)
+            for t in re.findall(r"@(C\d\d(?:,C\d\d)*)", l):
+                for x in t.split(","):
+                    if x not in m.get(cur, []):
+                        m.setdefault(cur, []).append(x)
     return m
 
 def enclosing(lines, i):
